@@ -2,8 +2,8 @@ package zv
 
 import (
 	"go/token"
-	"strconv"
 	"go/types"
+	"strconv"
 	"strings"
 
 	"golang.org/x/tools/go/ssa"
